@@ -138,7 +138,86 @@ func (g *genModel) strExpr(v ssa.Value) ([]strPart, error) {
 
 // isRangeIndexOf checks that idx is the induction variable of a full forward range over list:
 // idx = phi(-1, idx) + 1 and the loop condition is idx < len(list).
+// sameSlotValue: a and b are the same SSA value, or both are loads of one local cell that is stored exactly
+// once (a variable captured by a closure is spilled to such a cell and re-loaded at every use).
+func sameSlotValue(a, b ssa.Value) bool {
+	if a == b {
+		return true
+	}
+	la, ok1 := a.(*ssa.UnOp)
+	lb, ok2 := b.(*ssa.UnOp)
+	if !ok1 || !ok2 || la.Op != token.MUL || lb.Op != token.MUL || la.X != lb.X {
+		return false
+	}
+	al, ok := la.X.(*ssa.Alloc)
+	if !ok {
+		return false
+	}
+	stores := 0
+	for _, ref := range *al.Referrers() {
+		switch ref := ref.(type) {
+		case *ssa.Store:
+			if ref.Addr == ssa.Value(al) {
+				stores++
+			} else {
+				return false
+			}
+		case *ssa.UnOp, *ssa.DebugRef:
+		case *ssa.MakeClosure:
+			// the closure must not write the cell
+			fn, _ := ref.Fn.(*ssa.Function)
+			if fn == nil {
+				return false
+			}
+			for i, bnd := range ref.Bindings {
+				if bnd != ssa.Value(al) || i >= len(fn.FreeVars) {
+					continue
+				}
+				for _, r2 := range *fn.FreeVars[i].Referrers() {
+					switch r2.(type) {
+					case *ssa.UnOp, *ssa.DebugRef:
+					default:
+						return false
+					}
+				}
+			}
+		default:
+			return false
+		}
+	}
+	return stores == 1
+}
+
 func isRangeIndexOf(idx ssa.Value, list ssa.Value) error {
+	// the classic form: for i := 0; i < len(list); i++ — i is a phi(0, i+1) tested against len(list) in
+	// its own block
+	if phi, ok := idx.(*ssa.Phi); ok && len(phi.Edges) == 2 {
+		var step *ssa.BinOp
+		zero := false
+		for _, e := range phi.Edges {
+			if c, ok := e.(*ssa.Const); ok && c.Value != nil && c.Int64() == 0 {
+				zero = true
+			}
+			if bo, ok := e.(*ssa.BinOp); ok && bo.Op == token.ADD && bo.X == ssa.Value(phi) {
+				if one, ok := bo.Y.(*ssa.Const); ok && one.Value != nil && one.Int64() == 1 {
+					step = bo
+				}
+			}
+		}
+		if zero && step != nil {
+			blk := phi.Block()
+			if ifi, ok := blk.Instrs[len(blk.Instrs)-1].(*ssa.If); ok {
+				if cmp, ok := ifi.Cond.(*ssa.BinOp); ok && cmp.Op == token.LSS && cmp.X == ssa.Value(phi) {
+					if ln, ok := cmp.Y.(*ssa.Call); ok {
+						if b, ok := ln.Call.Value.(*ssa.Builtin); ok && b.Name() == "len" && sameSlotValue(ln.Call.Args[0], list) {
+							// the step must be the only other definition reaching the header: no extra updates of i
+							return nil
+						}
+					}
+				}
+			}
+		}
+	}
 	add, ok := idx.(*ssa.BinOp)
 	if !ok || add.Op != token.ADD {
 		return fmt.Errorf("index %s is not a range induction variable", idx)
@@ -189,7 +268,7 @@ func isRangeIndexOf(idx ssa.Value, list ssa.Value) error {
 	if !ok {
 		return fmt.Errorf("loop bound is not len(list)")
 	}
-	if b, ok := ln.Call.Value.(*ssa.Builtin); !ok || b.Name() != "len" || ln.Call.Args[0] != list {
+	if b, ok := ln.Call.Value.(*ssa.Builtin); !ok || b.Name() != "len" || !sameSlotValue(ln.Call.Args[0], list) {
 		return fmt.Errorf("loop bound is not len of the ranged list")
 	}
 	return nil
